@@ -6,6 +6,7 @@ import (
 	"go/parser"
 	"go/token"
 	"os"
+	"path"
 	"path/filepath"
 	"sort"
 	"strings"
@@ -37,7 +38,9 @@ func servicesOptions(r *rng.R) gobuild.Options {
 	case 2:
 		o.NoZap = true
 	case 3:
-		o.PkgPrefix = "genout/x/y-z/gen"
+		// also in spellings that are not clean: what plugins are told (import paths, directories)
+		// must be what the generated packages have
+		o.PkgPrefix = []string{"genout/x/y-z/gen", "genout/x/y-z/gen/", "./genout/x/y-z/gen", "genout/x//y-z/gen", "genout/x/y-z/./gen/"}[r.Intn(5)]
 	}
 	return o
 }
@@ -179,7 +182,9 @@ func (c *checker) c19Static(b *built, helper string) {
 		fail("request not self-consistent / import names of a plugin file not consistent", pr, "every root service, parent and module id must resolve within the request and parent chains must be acyclic; every name the template's import function hands out must be bound to that path, once, in the generated file")
 	}
 	prefix := b.opts.Prefix()
-	if hr.PackagePrefix != prefix {
+	// (compared in clean form: the request hands the option on as it was spelled, and the
+	// property speaks of names, import paths and directories)
+	if path.Clean(hr.PackagePrefix) != prefix {
 		fail("request package prefix", hr.PackagePrefix, "PackagePrefix must be the --pkg-prefix in effect: "+prefix)
 	}
 	// modules: exactly the files reachable from the root, with the right paths
